@@ -144,6 +144,27 @@ def _run(prop_id, args, seed, tmp, t0):
                os.path.join(tmp, "shard%d.log" % i))
     procs.append(("shard%d" % i, p))
   results = _wait_all(procs, WORKER_TIMEOUT[tier])
+  # ---- coverage-guided campaign (atheris), thorough tier only
+  mod0 = importlib.import_module("props." + prop_id.lower())
+  fuzz_runs = int(getattr(mod0, "FUZZ", {}).get(tier, 0) * args.scale)
+  fuzz_names = []
+  if fuzz_runs > 0:
+    fprocs = []
+    for i in range(nshards):
+      cdir = os.path.join(tmp, "corpus%d" % i)
+      os.makedirs(cdir)
+      committed = os.path.join(HERE, "corpus", prop_id)
+      if os.path.isdir(committed) and i % 2 == 1:
+        for fn in os.listdir(committed):      # odd shards start from the corpus
+          shutil.copy(os.path.join(committed, fn), cdir)
+      p = _spawn(["--prop", prop_id, "--mode", "fuzz", "--tier", tier,
+                  "--runs", str(fuzz_runs), "--seed", str(seed * 1000 + i + 1),
+                  "--corpus", cdir],
+                 os.path.join(tmp, "fuzz%d.json" % i),
+                 os.path.join(tmp, "fuzz%d.log" % i))
+      fprocs.append(("fuzz%d" % i, p))
+      fuzz_names.append("fuzz%d" % i)
+    results += _wait_all(fprocs, WORKER_TIMEOUT[tier])
   for name, rc in results:
     outp = os.path.join(tmp, name + ".json")
     if rc != 0 or not os.path.exists(outp):
@@ -155,6 +176,21 @@ def _run(prop_id, args, seed, tmp, t0):
   replay_res = _read(os.path.join(tmp, "replay.json"))
   shard_res = [_read(os.path.join(tmp, "shard%d.json" % i))
                for i in range(nshards)]
+  fuzz_res = [_read(os.path.join(tmp, n + ".json")) for n in fuzz_names]
+  fuzz_summary = None
+  if fuzz_res:
+    fuzz_summary = {
+        "engine": "atheris (libFuzzer) over Hypothesis fuzz_one_input",
+        "processes": len(fuzz_res),
+        "executions": sum(r["fuzz"]["executions"] for r in fuzz_res),
+        "decoded_cases": sum(r["fuzz"]["decoded_cases"] for r in fuzz_res),
+        "coverage_feedback": "tensorflow_lattice modules only",
+        "corpora": "even shards start empty, odd shards from corpus/<ID>/ "
+                   "when present"}
+    for r in fuzz_res:
+      for v in r["violations"]:
+        v["shard"] = "fuzz"
+    shard_res = shard_res + fuzz_res
   for r in shard_res:
     merged["evaluations"] += r["evaluations"]
     merged["checks"] += r.get("checks", 0)
@@ -176,7 +212,7 @@ def _run(prop_id, args, seed, tmp, t0):
         merged["samples"].append({"class": k, "case": lst[0]})
   for i, r in enumerate(shard_res):
     for v in r["violations"]:
-      v["shard"] = i
+      v.setdefault("shard", i)
       merged["violations"].append(v)
   for v in replay_res["violations"]:
     v["shard"] = "replay"
@@ -223,7 +259,7 @@ def _run(prop_id, args, seed, tmp, t0):
     if not args.no_shrink:
       sprocs = []
       for n, (key, (_, v)) in enumerate(items):
-        if v["shard"] == "replay":
+        if not isinstance(v["shard"], int):
           continue
         sp = _spawn(["--prop", prop_id, "--mode", "shrink", "--tier", tier,
                      "--shard", str(v["shard"]), "--nshards", str(nshards),
@@ -279,6 +315,8 @@ def _run(prop_id, args, seed, tmp, t0):
   }
   if merged["extra"]:
     ev["coverage"]["extra"] = merged["extra"]
+  if fuzz_summary:
+    ev["coverage"]["fuzz"] = fuzz_summary
   if not args.no_evidence:
     os.makedirs(os.path.join(HERE, "evidence"), exist_ok=True)
     with open(os.path.join(HERE, "evidence", prop_id + ".json"), "w") as f:
